@@ -50,6 +50,8 @@ ASBUILT = {
   `tol_p / tol_m / tol_T` with `tol_res` up to 1), finite, undamped step; every exhausted stage used exactly
   its budget; returns are marked converged with finite results at fed junctions; `PipeflowNotConverged` leaves
   `net.converged` false and **no number in any result table**, also after earlier successes (225 such checks per quick run).
+  The hostile variants include `no_supply` (every feeder switched off - valid input that fails before the first Newton
+  iteration, also after earlier successes on the same object; added after seeded change R3_C13).
   NaN / zero parameters are invalid input: their exception class is only counted (numba raises ZeroDivisionError where numpy
   produces NaN). (B) the real `newton_raphson` driven with **all** sequences of 22 symbols (11 error patterns incl. NaN x
   residual in/out) of length = budget 1-3 (quick, 22 308 scripts) / 1-4 (thorough, 490 k scripts), both methods, against the
@@ -126,7 +128,8 @@ ASBUILT = {
   full / subset / shuffled `time_steps`, with and without `continue_on_divergence`, hydraulics and sequential. All stand-alone
   references are computed first, then the series is judged up to the first diverged step (without continue) or throughout.
   A series that raises never finalises its OutputWriter: its earlier steps are read from the writer's raw buffer. Logged
-  values are compared bit-for-bit. H1 must deliver >= 1 pipeflow event per run. Every eighth case is a **multi-energy series**
+  values are compared bit-for-bit. H1 must deliver >= 1 pipeflow event per run. A quarter of the series has black-out steps
+  (every feeder out of service: the step fails before its first iteration; R3_C13). Every eighth case is a **multi-energy series**
   (power net + 2-3 gas nets, one P2G coupling each so that the controllers of one level name different nets, half of the gas
   nets with a profile of their own; added after seeded change R2_C13). **Found and fixed:** the control loop compared net
   objects by content and raised ValueError for two gas nets with own controllers.""",
@@ -151,7 +154,8 @@ ASBUILT = {
   ndarray or pandas Series (labels coinciding with the new rows or not; added after seeded change R2_C16). **Found and fixed:**
   Series arguments aligned by label in `create_ext_grids` / `create_pressure_controls` (IndexError / ValueError, the latter after
   the rows were written); `create_pipe(text_k=0)`, junction
-  row written before geodata is rejected, missing controlled junction accepted, label-column docs. **Open findings:** a failed
+  row written before geodata is rejected, missing controlled junction accepted, label-column docs. A dedicated scenario puts two pressure controllers in series (random labels): a controlled junction behind
+  the other controller must be refused, one reached over a pipe must be accepted (R3_C16). **Open findings:** a failed
   create leaves a new empty component table; `create_pressure_control` returns None silently.""",
 "C17": """* **As built (`props/c17.py`):** random sequences (1-6) of the ten toolbox operations on nets with every component; after each
   step: referential integrity (incl. `valve.element` against the pipe index for pi valves, result rows without element,
